@@ -189,3 +189,8 @@ Ltac norm_trig_args :=
   | |- context [sin (?x / ?c)] => is_var x; tryif is_var c then fail else replace (x / c) with (1 / c * x) by (field; lra)
   end.
 Ltac twin_t := cbv zeta; pos_sqrt_hyps; norm_trig_args; trig_hyps; abstract_trig; twin_core.
+(* Tilt when one copy builds its quaternion as v/|v| (e.g. through rpy2q) and the other returns the half-angle product v itself:
+   |v| = 1 identically (cos^2 + sin^2 = 1 for each half angle), so the radicand is rewritten to 1 and the leaf x / 1 closed by field *)
+Ltac twin_tilt_unit :=
+  cbv zeta; pos_sqrt_hyps; repeat dec1; try reflexivity; try set_inner_atan2; try set_inner_atan2; merge2 atan2;
+  trig_hyps; abstract_trig; unit_norm; same_val.
